@@ -1,5 +1,6 @@
 -- root of the library: every property file (and through them models, lemmas, generated tables)
 import ChmpyVerif.Model.Proto
+import ChmpyVerif.Props.C01
 import ChmpyVerif.Props.C02
 import ChmpyVerif.Props.C11
 import ChmpyVerif.Props.C12
